@@ -7,6 +7,8 @@ props = [json.loads(l) for l in open(os.path.join(VERIF, "properties.jsonl"))]
 TB = "TLC; the TLA+ modules under /verif/spec; the harness's observation code (interposed mmap/munmap/mprotect/__clear_cache, memory watch, child-process runner); Linux kernel behaviour"
 
 CLAIMED = {
+ "C08": ("model_checking", "MC_Arms: the reference meaning FakeCall(opts) explored over every option set, script and N; every arm of the macro is extracted from the source at check time, instantiated (rustc decides 'compiles') and driven through every script of <=3/4 calls x N in 0..2 in child processes; per-call outcome, side-effect cell, returns-evaluation count and exit verdict validated by TLC against FakeCall (Trace_Arms).", "5 C08",
+         "TLC-checked reference semantics + per-arm generated instantiations validated by TLC"),
  "C04": ("model_checking", "MC_Lock: all interleavings of 3 threads x {injector, preventer} x {drop, panic} with Mutex / PrevSeesOrig / OwnFakes / FreeMeansOrig and hand-over liveness under weak fairness; TLC-generated schedules executed in lock-step on real threads (blocked actions must not complete, enabled ones must); free-running perturbed threads validated by TLC (Trace_Lock); the guard's state read at every OS call of install/drop (Trace_Api).", "5 C04",
          "TLC exhaustive model check (safety+liveness) + lock-step schedule replay + trace validation"),
  "C09": ("model_checking", "gate specification = structural equality of type records; MC_Sig checks over the generated family that text equality decides it; every ordered pair x every macro form is a real installation whose verdict, message class and untouched-on-refusal are validated by TLC (Trace_Sig).", "5 C09",
